@@ -90,6 +90,8 @@ def install(eng):
                 return T in (getattr(v, "pytype", list), object)
             if isinstance(v, SymMap):
                 return T in (dict, object)
+            if isinstance(v, SymList):
+                return T in (list, object)
             if isinstance(v, SObj):
                 return any(isinstance(b, type) and issubclass(b, T) for b in v.cls.mro())
             if isinstance(v, PyExc):
